@@ -229,6 +229,16 @@ func runC05(env *lib.Env, rep *lib.Report) {
 					r.check(qw, &qQuery{items: star, from: from, orderBy: s, limit: lo[0], offset: lo[1], limitFirst: lo[2] == 1}, "limit-offset", "")
 				}
 			}
+			// (4c) counts near the top of the integer range: a LIMIT larger than any table keeps everything, an
+			// OFFSET larger than any table skips everything, and their sum is never computed in a way that wraps
+			const maxI = int(^uint(0) >> 1)
+			for _, lo := range [][2]int{{maxI, 1}, {maxI, 0}, {maxI, 2}, {maxI - 1, 2}, {1, maxI}, {maxI, maxI}, {maxI/2 + 1, maxI/2 + 1}, {1 << 31, 1}, {1<<32 + 1, 1}, {maxI, -1}, {-1, maxI}} {
+				for _, first := range []bool{true, false} {
+					for _, s := range [][]qSort{nil, {{qRef{"", "a"}, "DESC"}}} {
+						r.check(qw, &qQuery{items: star, from: from, orderBy: s, limit: lo[0], offset: lo[1], limitFirst: first}, "limit-offset/extreme", "")
+					}
+				}
+			}
 			// (4b) WHERE x LIMIT/OFFSET without ORDER BY (the window counts matching rows, not scanned ones)
 			for _, lo := range qs.limits {
 				for _, cond := range repConds[1:] {
